@@ -5,8 +5,8 @@ World: two real sticky-enabled WSGI apps ("A", "B") sharing one AEAD ``token_key
 virtual clock / no-reaper / sequential-session-id seams of ``vf.kit.c25_sticky``.  Every request goes through
 the real client (``http_connect``) and the real Falcon middleware stack.
 
-BFS events: open(worker, identity) | close-in-method(token) | DELETE(token) (both by the owner, on a live
-session) | tick(+TTL) | tick(+TTL+1) | reap(worker) = ``registry.drain_expired()`` | (thorough) drain(worker),
+BFS events: open(worker, identity[, per-call ttl in {0, 2}]) | close-in-method(token) | DELETE(token) (both by the owner, on a live
+session) | tick(+1) | tick(+TTL) | tick(+TTL+1) | reap(worker) = ``registry.drain_expired()`` | (thorough) drain(worker),
 shutdown(worker).  Canonical state = clock offset, drain flags and the *multiset* of minted tokens
 (worker, identity, expiry offset, closed-by-model, present-in-registry).  Soundness of the projection: the
 registry holds nothing but (session id -> state, expires_at, principal_key) and the drain flag, tokens are
@@ -61,7 +61,7 @@ LEVEL_TEXT = (
     "the complete presentation matrix is judged; the statement quantifies over histories x presentations, which example tests sample twice."
 )
 LEVEL_NOTE = (
-    "Bounds: 2 workers, <=3 tokens, depth 3/4, identity alphabet of 4/6, default TTL only, unary calls. AEAD strength is trusted "
+    "Bounds: 2 workers, <=3 tokens, depth 3/4, identity alphabet of 4/6, TTLs {default, 0, 2}, unary calls. AEAD strength is trusted "
     "(mutations are single-bit / truncation / char edits, not forgeries). Clock, reaper and session-id source are replaced by deterministic seams."
 )
 ASSUMPTIONS = [
@@ -129,11 +129,12 @@ class World:
     def apply(self, ev: Any) -> None:
         kind = ev[0]
         if kind == "open":
-            _, wn, ident = ev
+            wn, ident = ev[1], ev[2]
+            ttl = ev[3] if len(ev) > 3 else None  # per-call TTL passed to ctx.open_session (None = the server default)
             # worker-local session-id sequence: the n-th session of A and the n-th session of B get the SAME
             # session id, so only the token's server_id (not luck) keeps the two registries apart
             self.sec.n = self.minted_on[wn]
-            o = self.w[wn].call("open", ident=ident, accept="true")
+            o = self.w[wn].call("open" if ttl is None else f"open:{ttl}", ident=ident, accept="true")
             self.minted_on[wn] = self.sec.n
             if self.draining[wn]:
                 if o["minted"] or "server_draining" not in o["kinds"]:
@@ -143,7 +144,7 @@ class World:
                 self.problems.append(("event:open-failed", f"opt-in open under {ident!r} on {wn} gave {brief(o)}"))
                 return
             label = o["ret"].split("|")[-1]
-            self.tokens.append({"w": wn, "i": ident, "exp": self.clock.now + TTL, "closed": False, "label": label, "tok": o["minted"]})
+            self.tokens.append({"w": wn, "i": ident, "exp": self.clock.now + (TTL if ttl is None else ttl), "closed": False, "label": label, "tok": o["minted"]})
         elif kind == "close":
             t = self.tokens[ev[1]]
             o = self.w[t["w"]].call("close", ident=t["i"], token=t["tok"])
@@ -207,10 +208,14 @@ def make_enabled(tier: str):
             for wn in ("A", "B"):
                 for i in ids:
                     evs.append(("open", wn, i))
+                # explicit per-call TTLs, including zero (expired on arrival) and one shorter than the default
+                evs.append(("open", wn, "alice", 0.0))
+                evs.append(("open", wn, "alice", 2.0))
         for k in range(len(w.tokens)):
             if w.live(k) is True:
                 evs.append(("close", k))
                 evs.append(("delete", k))
+        evs.append(("tick", 1.0))
         evs.append(("tick", TTL))
         evs.append(("tick", TTL + 1))
         for wn in ("A", "B"):
